@@ -22,7 +22,7 @@ for pid in ids:
         "level_claimed": {"category": c.get("level", "proof"), "text": c["level_text"],
                           "design_ref": c.get("design_ref", "DESIGN.md §5 " + pid)},
         "level_note": c["level_note"],
-        "technique": c.get("technique", "Lean 4 theorem over a hand-written executable model; model tied to /repo by regenerated constants, white-box differential correspondence and source-site audit"),
+        "technique": c.get("technique", "Lean 4 theorems over hand-written executable models (single-threaded cache, concurrent cache driven by one thread, abstract concurrent models); models tied to /repo on every run by regenerated constants, decision logic translated from the Rust text with agreement theorems, white-box differential correspondence, the theorem's own oracle judging every implementation trace, and source-site audit"),
     })
 na = [{"property_id": pid, "reason": "check under construction in this round: model and correspondence exist, the property theorem is not yet stated in Props/; will be claimed once it is"}
       for pid in ids if pid not in PROPS]
@@ -35,9 +35,9 @@ m = {
               "source_commits": hooks_commits, "add_only": True},
     "engines": [{"name": "lean4-proof+correspondence", "path": "/verif/lean/MiniMoka + /verif/harness + /verif/tools/check.py",
                  "serves_properties": [c["property_id"] for c in checks],
-                 "kind_free_text": "Lean 4 model + theorems (lake), native model driver, Rust differential harness with white-box hooks, source-site audit"}],
+                 "kind_free_text": "Lean 4 models + theorems (lake), Rust-to-Lean translator for decision logic with agreement theorems, native model driver, Rust differential harness with white-box hooks, source-site audit, Miri (thorough)"}],
     "checks": checks,
-    "notes": "See DESIGN.md. Every check: regenerate constants from /repo, lake build the property's theorem module, audit axioms, rebuild the harness against /repo's working tree, run corpus + generated histories on implementation and model, judge implementation traces with the property's oracle, audit source sites.",
+    "notes": "See DESIGN.md. Every check: regenerate constants and translate the decision logic (44 sites) from /repo's sources into Lean, lake build the property's theorem modules and the agreement theorems between model and translated logic, audit axioms, rebuild the harness against /repo's working tree, run corpus + generated histories on implementation and model, judge implementation traces with the property's oracle (the Lean function the theorems are about), audit source sites (counts and ordered lock/channel sequences). Thorough tier: 150x the histories, leanchecker on the compiled property modules, and for C08/C11 the real code under Miri.",
     "not_applicable": na,
 }
 json.dump(m, open(os.path.join(ROOT, "MANIFEST.json"), "w"), indent=1)
